@@ -1184,10 +1184,15 @@ impl Sim {
         self.stats.sim_ms += dt_ms as u64;
         if let Err(p) = res {
             self.server_panicked = true;
-            let prop = if injected { "C06" } else if self.any_session_restarted() { "C09" } else { "C01" };
-            self.violate(prop, "server_panic", format!("server frame panicked: {p}"));
-            if prop != "C01" {
-                self.violate("C01", "server_panic", format!("server frame panicked: {p}"));
+            // A panic belongs to convergence (C01) in any case, to the session life-cycle (C09) if a session
+            // ended before, and to C06 if any client bytes were injected earlier in the run (the server
+            // must keep serving correctly after malformed input).
+            self.violate("C01", "server_panic", format!("server frame panicked: {p}"));
+            if self.any_session_restarted() {
+                self.violate("C09", "server_panic", format!("server frame panicked: {p}"));
+            }
+            if injected || self.stats.faults.contains_key("byzantine_bytes") {
+                self.violate("C06", "server_panic", format!("server frame panicked: {p}"));
             }
             return;
         }
